@@ -904,6 +904,29 @@ func checkC17(p *Prog, r *Report) {
 	sort.Strings(fl)
 	r.note("fields holding secrets: %v", fl)
 	r.add("R17.1", "secret-fields-found", "", fmt.Sprintf("struct fields that hold a secret: %v", fl), len(fl) >= 3, "the field-based propagation found fewer secret-carrying fields than confirmed by hand (urlPrefix, token, Password)")
+	rulePasswordSends(p, r)
+	// R17.2: the tracing facilities of the libraries that carry the secrets
+	r.rule("R17.2", "The libraries that carry the secrets are never switched to tracing: no call of goexpect.Verbose, VerboseWriter, Tee or DebugCheck (they print or copy everything that is sent to the device, the login and enable passwords included), of httputil.DumpRequest / DumpRequestOut / DumpResponse, or of httptrace.WithClientTrace anywhere in the module's production code. The taint rule R17.1 trusts that library functions do not log by themselves; these options are the way to make them do it.")
+	forbidden := map[string]string{
+		"github.com/tailscale/goexpect.Verbose": "logs every sent string", "github.com/tailscale/goexpect.VerboseWriter": "logs every sent string",
+		"github.com/tailscale/goexpect.Tee": "copies the whole session incl. what is sent", "github.com/tailscale/goexpect.DebugCheck": "debug logger of the session",
+		"net/http/httputil.DumpRequest": "renders URL and headers", "net/http/httputil.DumpRequestOut": "renders URL and headers", "net/http/httputil.DumpResponse": "renders the reply (keygen reply, token header)",
+		"net/http/httptrace.WithClientTrace": "client trace hooks see the request",
+	}
+	nSpawn, nBad := 0, 0
+	for _, fn := range allModFuncs(p) {
+		for _, cs := range callsOf(fn) {
+			n := cs.calleeName()
+			if strings.HasPrefix(n, "github.com/tailscale/goexpect.Spawn") {
+				nSpawn++
+			}
+			if why, bad := forbidden[n]; bad {
+				nBad++
+				r.fail("R17.2", "library-tracing|"+shortName(fn)+"|"+n, p.ipos(cs.In), n+" is called in "+shortName(fn)+": "+why, "passwords, API key or token can appear on stderr or in a file through the library's own logging")
+			}
+		}
+	}
+	r.add("R17.2", "library-tracing|none", "", fmt.Sprintf("%d session spawn site(s); no tracing option or dump helper of goexpect / net/http is used", nSpawn), nBad == 0 && nSpawn >= 1, "see the calls reported above (or the spawn site was not found)")
 	r.Trusted = []string{"go/ssa, call graph", "library functions propagate taint from arguments to results and do not log by themselves", "*url.Error (returned by net/http client calls) contains the request URL and method, not headers or body"}
 	r.NotDec = "a device echoing a secret back in its output; secrets in process arguments/environment"
 }
